@@ -160,7 +160,7 @@ func record(seed int64, traces, n int, out, mode string) {
 	vtrace.Stat("distinct", kinds.Len())
 }
 
-// shapesHistory: engineered start of a history.  All three accounts exist, one of them owns a data trie with the keys
+// shapesHistory: engineered start of a history (seeded defects C09-B, C09-M are of this kind).  All three accounts exist, one of them owns a data trie with the keys
 // K0 K1 K2 (and K3 in every second trace).  After the genesis root has been pruned (its new-hashes entry cancelled), one
 // block deletes K0 (the data trie's root branch collapses over the committed branch B), later blocks remove account 3
 // (main trie branch X collapses over the committed branch Y), K1 (collapse over a leaf) ..., each followed by enough
@@ -183,6 +183,11 @@ func shapesHistory(t int) ([]txop, []op) {
 		settle()
 	}
 	settle()
+	// value flip-flop across blocks + rollback: block 1 replaces a node N of the final state, block 2 writes the old
+	// value back (re-creates N), block 2 is rolled back before block 1 is final: N must survive (it is only listed in
+	// the pending OLD hashes of the final root), then block 1 is rolled back as well
+	ops = append(ops, op{Op: "commit", Txs: []txop{{K: "set", A: owner, X: 1, V: 2}}},
+		op{Op: "commit", Txs: []txop{{K: "set", A: owner, X: 1, V: 1}}}, op{Op: "rollback"}, op{Op: "rollback"})
 	block(txop{K: "del", A: owner, X: 0})
 	victim := 3
 	if owner == 3 {
